@@ -587,6 +587,24 @@ func authenticateAll() {
 			}
 		}
 	}
+	// names that look qualified or quoted, and letters with unusual case mappings: each is carried
+	// as given (in the negotiated character set) in the field it was supplied for
+	shaped := append(append(append([]string{}, gen.ShapedUsers()...), gen.ShapedDomains()...), gen.CaseSpecials()...)
+	for i, u := range shaped {
+		uni := isASCII7(u) && i%2 == 0
+		for _, ess := range []bool{false, true} {
+			c := genChallenge(rng, !uni, i%3 == 0, i%2 == 1, ess, 6, 3, 0)
+			if c.spec.Flags&fUnicode == 0 && !isASCII7(u) {
+				continue
+			}
+			d, w := shaped[(i*7+3)%len(shaped)], shaped[(i*5+1)%len(shaped)]
+			if c.spec.Flags&fUnicode == 0 && (!isASCII7(d) || !isASCII7(w)) {
+				d, w = "", "WS"
+			}
+			authenticateCase(c, u, fixedPasswords[i%len(fixedPasswords)], d, w, fmt.Sprintf("shaped|%d|%v", i, ess))
+			authenticateCase(c, u, "pw", "", "", fmt.Sprintf("shaped-alone|%d|%v", i, ess))
+		}
+	}
 	// descriptor boundary
 	for _, ess := range []bool{false, true} {
 		c := genChallenge(rng, false, true, true, ess, 6, 3, 0)
